@@ -122,6 +122,58 @@ func runCase(c *wk.Ctx, i int) {
 			}
 			walkView(c, i, vi, v, ru, r, os, fail)
 		}
+		// A transaction iterator that is kept while the transaction goes on writing (and spilling its buffer
+		// into tables): it keeps presenting the pairs of the instant it was created, for any walk.
+		if tr != nil && !failed {
+			tv := views[len(views)-1]
+			for round := 0; round < 3 && !failed; round++ {
+				var rg *util.Range
+				if r.Intn(2) == 0 {
+					a, b := ru.Keys.Pick(r), ru.Keys.Pick(r)
+					if os.O.Comparer.Compare(a, b) > 0 {
+						a, b = b, a
+					}
+					rg = &util.Range{Start: a, Limit: b}
+				}
+				var list []model.KV
+				if rg == nil {
+					list = tv.m.Range(nil, nil)
+				} else {
+					list = tv.m.Range(rg.Start, rg.Limit)
+				}
+				it := tr.NewIterator(rg, nil)
+				cur := model.NewCursor(list, os.O.Comparer)
+				ws := &dbx.WalkStats{}
+				seek := func() []byte { return ru.Keys.Pick(r) }
+				mm := dbx.WalkFrom(r, it, cur, true, seek, 20+r.Intn(100), ws)
+				for seg := 0; seg < 3 && mm == nil && !failed; seg++ {
+					for j := 0; j < 20+r.Intn(250); j++ {
+						k := ru.Keys.Pick(r)
+						var err error
+						if r.Intn(4) == 0 {
+							err = tr.Delete(k, nil)
+							tv.m.Delete(k)
+						} else {
+							v := model.Value(8, uint32(round*1000+seg*300+j), 0, model.ValueSize(r, os.O.GetBlockSize(), os.O.GetWriteBuffer()))
+							err = tr.Put(k, v, nil)
+							tv.m.Put(k, v)
+						}
+						if err != nil {
+							fail("transaction-write-error", err.Error(), nil)
+							break
+						}
+					}
+					mm = dbx.WalkFrom(r, it, cur, false, seek, 20+r.Intn(100), ws)
+					c.Count("held_transaction_iterator_segments", 1)
+				}
+				it.Release()
+				c.Count("reversals", int64(ws.Reversals))
+				if mm != nil {
+					fail("iterator-mismatch:held-transaction-iterator", "transaction iterator kept across later writes of the same transaction: "+mm.Error(),
+						map[string]interface{}{"mismatch": mm, "options": os.Desc, "list_len": len(list)})
+				}
+			}
+		}
 	})
 	c.Eval()
 	if ru != nil && !panicked {
